@@ -242,7 +242,7 @@ def generate(rng, idx, tier):
         c = rng.choice(names)
         tag = 'T%d' % (step + 1)
         if k in ('rc', 'rn'):
-            ops.append([k, c, tag])
+            ops.append([k, c, tag] + (['again'] if rng.random() < 0.25 else []))
         elif k == 'rp':
             ops.append(['rp', c if rng.random() < 0.8 else None, tag, 'fresh' if rng.random() < 0.4 else 'shared'])
         elif k == 'repr':
@@ -275,6 +275,7 @@ def execute(spec):
     trace = []
     registered = False
     shared_preds = {}
+    last_fn = {}
     seen_pred_targets = set()
 
     def bump(k):
@@ -293,6 +294,11 @@ def execute(spec):
             c = cls[op[1]]
             tag = op[2]
             fn = (lambda v, ctx, tag=tag: tag)
+            if len(op) > 3 and op[3] == 'again' and (k, c) in last_fn:
+                # the very same function object registered once more (module imported twice, ...)
+                fn, tag = last_fn[(k, c)]
+                bump('same_function_registered_again')
+            last_fn[(k, c)] = (fn, tag)
             if k == 'rn':
                 register_pretty(key(c))(fn)
                 m.reg[c] = dict(tag=tag, byname=True, state=PENDING)
